@@ -352,6 +352,24 @@ def run(world, rep, tier, only=None):
     rep.ob("C18.j", site(pf, "no error message is followed by a zero status"), not silent_fail,
            "(line of com_err, line of `return` with a status known to be 0): %s" % silent_fail[:4])
 
+    # ------------------------------------------------------------------ C18.k a populate step writes back no stale inode (shared with C10.i)
+    # Creating a directory, symlink or file links a name into the parent; the link may grow the parent (a new block,
+    # an htree split that rewrites the directory inode).  A caller that goes on to write its own copy of that inode
+    # has read it again, or size and mapping go back and names disappear from the tree just stored.
+    n_k18 = 0
+    seen_k = set()
+    for pr in (prog, dbg):
+        for f in pr.functions():
+            if not f.file.startswith(("lib/ext2fs/mkdir.c", "lib/ext2fs/symlink.c", "lib/ext2fs/link.c", "misc/create_inode.c")) or f.key in seen_k:
+                continue
+            seen_k.add(f.key)
+            for (m, w_, stale) in stale_inode_writes(f):
+                n_k18 += 1
+                rep.ob("C18.k", site(f, "inode written at line %d is fresh after %s" % (w_.line, T.call_names(m.ev["x"])[0])), not stale,
+                       "every path from `%s` (line %d) to `%s` re-reads the inode into the written copy" %
+                       (m.text()[:30], m.line, w_.text()[:40]))
+    rep.floor("C18.k rewrite-then-write pairs in the populate path", n_k18, 3)
+
     # ------------------------------------------------------------------ C18.w offset width
     fns = [f for f in prog.functions() if f.file in (CI, "misc/create_inode_libarchive.c", "misc/mk_hugefiles.c")] + \
           [f for f in dbg.functions() if f.file in (DUMP, "debugfs/debugfs.c", "debugfs/filefrag.c")]
